@@ -578,6 +578,10 @@ func propC02(c *Ctx) {
 		rulePendingErrPerHandler(c, rpe)
 		rcb := c.Rule("counter-balance", "a function that increments a nesting counter of the compiler or optimizer (try depth, loop depth, expression level) decrements it again on every path to a successful return", 2)
 		ruleCounterBalance(c, rcb)
+		rha := c.Rule("handler-active", "an error is delivered to a frame only if hasActiveHandler succeeded for that frame: a try statement whose finally block is running does not catch the errors of calls made from it a second time", 2)
+		ruleHandlerActive(c, rha)
+		rcv := c.Rule("catch-var-fresh", "the catch clause binds the error to a fresh variable (OpDefineLocal): the variable's definition at the end of the try body is skipped on the throwing path, and OpSetLocal would write through whatever cell the reused slot still holds", 1)
+		ruleCatchVarFresh(c, rcv)
 		rbc := c.Rule("blank-never-const", "the blank identifier is never made a constant symbol: it can be declared again in the same scope", 2)
 		ruleBlankNeverConst(c, rbc)
 		rfc := c.Rule("free-const", "the symbol of a captured variable inherits the Constant flag: a constant cannot be assigned from inside a function literal", 1)
